@@ -81,6 +81,7 @@ type world struct {
 	onQuery func(req wire.Message, deliver func(addr string, resp wire.Message) bool)
 	onBatch func(reqs []*query.Request) chan error
 	gbFail  map[int]bool // heights at which GetBlock fails
+	peerD   map[int][]int // scripted round: peer -> the heights at which it (alone) deviates
 	mid     *midReorg    // a reorganisation to perform while the cfheaders query is out
 	nonce   uint32
 	sidOf   map[string]int
